@@ -20,6 +20,10 @@ pub struct KSegment {
     pub at_us: u64,
     /// raw bytes, hex
     pub hex: String,
+    /// the bytes arrive this many times in a row (0 and 1 = once): volume without megabytes of
+    /// scenario text
+    #[serde(default)]
+    pub repeat: u32,
 }
 
 #[derive(Serialize, Deserialize, Clone, Debug, PartialEq)]
